@@ -16,6 +16,10 @@ impl PanicInfo {
         let mut m = String::new();
         let mut last_hash = false;
         for c in self.msg.chars().take(200) {
+            // cut at quoted / structured content: it depends on the input, not on the site
+            if c == '\'' || c == '`' || c == '{' || c == '"' || !c.is_ascii() {
+                break;
+            }
             if c.is_ascii_digit() {
                 if !last_hash {
                     m.push('#');
@@ -29,7 +33,7 @@ impl PanicInfo {
                 break;
             }
         }
-        format!("panic@{}:{}", f, m)
+        format!("panic@{}:{}", f, m.trim_end())
     }
     pub fn in_repo(&self) -> bool {
         self.file.starts_with("/repo/") || self.file.starts_with("src/")
